@@ -240,6 +240,23 @@ async def run_ws_api(backend, path, cases, counters, late_viols=None):
                                        "msg": "[%s/ws] an event was accepted%s; the same id and sig around different %s came back: OK=%s stored=%s pushed=%s"
                                               % (backend, " and deleted by its author" if removed else "", what, ok2, stored_forged, pushed_forged),
                                        "replay": {"backend": backend, "path": path, "raw": forged, "token": tk2, "label": "resent-after-acceptance", "shape": "kind1"}})
+            # ---- a delegation token that was verified for ITS delegatee is no token for anybody else: the genuine
+            # delegated event is accepted first, then another key signs an event of its own around the very same tag
+            for j in range(4):
+                ev, key, tk = seeds.build({"kind": 1, "created_at": gen.T0 - 90 - j, "delegated": True})
+                n1 = rig.rec.n
+                await conn.cmd(["EVENT", ev])
+                oks1 = R.ok_frames(conn, n1)
+                counters["delegation_genuine_first"] = counters.get("delegation_genuine_first", 0) + (1 if oks1 and oks1[-1][1][2] is True else 0)
+                other = next(k for k in seeds.keys if k is not key)
+                tk2 = subm.token("transplant")
+                thief = ref.make_event(other, kind=1, created_at=gen.T0 - 80 - j, tags=[t for t in ev["tags"] if t[0] == "delegation"], content=tk2)
+                n2 = rig.rec.n
+                await (conn2 if j % 2 else conn).cmd(["EVENT", thief])
+                await rig.quiesce()
+                oks2 = R.ok_frames(conn2 if j % 2 else conn, n2)
+                cases.append({"shape": "delegated", "label": "delegation=transplanted-after-genuine-accepted", "raw": thief, "token": tk2, "consistent": False,
+                              "ok": oks2[-1][1][2] if oks2 and len(oks2[-1][1]) > 2 else None})
         await rig.quiesce()
         d = dump.dump(rig)
         pushed = [f[2] for n, f in watcher.parsed_frames() if isinstance(f, list) and len(f) >= 3 and f[0] == "EVENT" and isinstance(f[2], dict)]
